@@ -106,7 +106,7 @@ def run(tier, seed):
     for i in range(nf):
         # every third grid grammar has a binary nonterminal whose base rule is a diagonal PatternedTensor: the
         # fixed-point iterates then change their sparsity pattern while newton / linear do not care
-        a = AG.gen_fx_recursive(rng, linear=(i % 2 == 0), max_q=0.85, patterned=(i % 3 == 1))
+        a = AG.gen_fx_recursive(rng, linear=(i % 2 == 0), max_q=0.85, patterned=('tri' if i % 3 == 1 else False))
         jobs.append({'ag': a, 'idx': nn + i, 'tier': tier, 'mode': 'fx'})
     with Scratch() as work:
         res = run_workers(work, jobs, o)
